@@ -480,7 +480,28 @@ def run(ctx):
                                        (r'^discr\(ItemDefinition::resolved\(self\)\)$|^discr\(self\.state\)$', 'Some' if v else 'None')])
             except Undecided as u:
                 t1[v] = 'undecided: %s' % u
-        ob(['C10'], 'ItemDefinition::is_resolved', t1 == {True: True, False: False}, 'is_resolved() ⇔ resolved() is Some: %s' % t1, f)
+        okr_ = t1 == {True: True, False: False}
+        if not okr_:
+            # `matches!(self.state, ItemState::Resolved(_))`: decided on the state itself (resolved() is Some exactly for that variant:
+            # accessor|ItemDefinition::resolved)
+            t3 = {}
+            for st_ in ('Resolved', 'Unresolved'):
+                try:
+                    t3[st_] = eval_fn(P, f, [(r'^discr\(self\.state\)$', st_)])
+                except Undecided as u:
+                    t3[st_] = 'undecided: %s' % u
+            g_ = one('types::ItemDefinition::resolved')
+            okg_ = False
+            if g_:
+                sw_ = [s_ for s_ in g_.switches() if show(s_['cond']) == 'discr(self.state)']
+                ex_ = g_.exits()
+                somes_ = [x for x in ex_ if x['kind'] == 'some']
+                okg_ = len(sw_) == 1 and len(somes_) == 1 and all(x['kind'] in ('some', 'none') for x in ex_) and \
+                    any(lab == 'Resolved' and (tgt == somes_[0]['block'] or g_.dominates(tgt, somes_[0]['block'])) for lab, tgt in sw_[0]['edges']) and \
+                    any(isinstance(y, tuple) and y and y[0] == 'payload' and y[2] == 'Resolved' for y in walk(expand(g_, somes_[0]['expr'])))
+            okr_ = t3 == {'Resolved': True, 'Unresolved': False} and okg_
+            t1 = dict(t3, resolved_is_some_exactly_for_Resolved=okg_)
+        ob(['C10'], 'ItemDefinition::is_resolved', okr_, 'is_resolved() ⇔ resolved() is Some: %s' % t1, f)
     # ---- ItemDefinitionInner::defaultable: Type -> its flag; Enum -> flag and a default variant
     f = one('types::ItemDefinitionInner::defaultable')
     if f:
